@@ -346,6 +346,21 @@ func (g *gen) poseidon() {
 				g.add("poseidon.hashex@hash %s 0 1", ints(inp))
 			}
 			g.add("poseidon.hashex@withstate %s %s 1", ints(inp), st)
+			// an error path followed by success paths: a rejected call (initial state / element / output count out of
+			// range) must leave nothing behind that a later accepted call can see
+			if n%5 == rep%5 {
+				switch r.intn(3) {
+				case 0:
+					g.add("poseidon.hashex@withstate %s %s 1", ints(inp), Q)
+				case 1:
+					bad := append([]*big.Int(nil), inp...)
+					bad[r.intn(n)] = add(Q, small(int64(r.intn(3))))
+					g.add("poseidon.hashex %s 0 1", ints(bad))
+				default:
+					g.add("poseidon.hashex %s 0 %d", ints(inp), n+2)
+				}
+				g.add("poseidon.hashex@hash %s 0 1", ints(inp))
+			}
 		}
 	}
 }
